@@ -2106,6 +2106,17 @@ def np_full_like(kind):
     return h
 
 
+def np_fill_like(I, args, kwargs, node):
+    """np.full_like(x, value): an array shaped (and, unless a dtype is given, typed) like x, every entry the value"""
+    base = np_full_like("zeros")(I, [args[0]] + list(args[2:]), kwargs, node)
+    v = args[1] if len(args) > 1 else kwargs.get("fill_value")
+    if isinstance(base, Arr) and isinstance(v, Expr):
+        r = base.copy(val=v)
+        r.meta = dict(base.meta)
+        return r
+    return Unknown("np.full_like")
+
+
 def np_full(kind):
     def h(I, args, kwargs, node):
         shp = _shape_arg(args[0])
@@ -3071,6 +3082,7 @@ EXT = {
     "numpy.full": np_full("full"),
     "numpy.ones_like": np_full_like("ones"),
     "numpy.zeros_like": np_full_like("zeros"),
+    "numpy.full_like": np_fill_like,
     "numpy.empty_like": np_full_like("empty"),
     "numpy.copy": np_copy,
     "numpy.diff": np_diff,
